@@ -67,6 +67,12 @@ DEVIATIONS = (  # cfg, invariant that must be violated
     ("MHKernel.abort_halfupdated.deviation.cfg", "CacheCoherent"),
 )
 
+SWEEP_DEVIATIONS = (  # CWSweep.tla: cfg, invariant that must be violated
+    ("CWSweep.RefusedStaysInBuffer.deviation.cfg", "EvalAtOneReplaced"),
+    ("CWSweep.ProposalsFromSweepStart.deviation.cfg", "EvalAtOneReplaced"),
+    ("CWSweep.CacheLastEvaluated.deviation.cfg", "CacheCoherent"),
+)
+
 
 _SERIAL = [0]
 
@@ -656,6 +662,144 @@ def source_facet(ctx, roots, behs):
     return behs
 
 
+# ----------------------------------------------------------------------------------------------------------------
+# spec -> code : the component-wise sweep as a record of evaluation points (CWSweep.tla)
+# ----------------------------------------------------------------------------------------------------------------
+def select_sweeps(behs, rnd, limit):
+    """every stratum (dimension, target, scale, outcome pattern of every sweep) at least once, then a seeded sample"""
+    from cuqiverif.cwsweep_real import split_sweeps, pattern
+    if limit is None or len(behs) <= limit:
+        return list(behs)
+    order = list(range(len(behs)))
+    rnd.shuffle(order)
+    seen, pick, rest = set(), [], []
+    for i in order:
+        c = behs[i]["cfg"]
+        q = (c["d"], c["tgt"], c["sc"], tuple(pattern(sw) for sw in split_sweeps(behs[i]["prog"])))
+        if q not in seen:
+            seen.add(q)
+            pick.append(i)
+        else:
+            rest.append(i)
+    if len(pick) < limit:
+        pick += rest[:limit - len(pick)]
+    return [behs[i] for i in sorted(pick)]
+
+
+def sweep_facet(ctx, roots, behs, limit):
+    """replay of the behaviours of CWSweep.<tier>.cfg on the component-wise kernels of both interfaces, through every public
+    entry point that makes a transition (step / sample / warmup; single_update / sample / sample_adapt)"""
+    from cuqiverif import cwsweep_real as W
+    from cuqiverif.core import MachineryError
+    rnd = random.Random(ctx.seed + 311)
+    chosen = select_sweeps(behs, rnd, limit)
+    stats = W.new_stats()
+    t0 = time.time()
+    nrun = 0
+    for n, b in enumerate(chosen):
+        c = b["cfg"]
+        root = roots[_cfgkey(c)]
+        nsw = len(W.split_sweeps(b["prog"]))
+        for iface in ("exp", "leg"):
+            entries = [W.ENTRIES[iface][0]]
+            if n % 3 == 0:
+                alt = W.ENTRIES[iface][1 + (n // 3) % 2]
+                if alt == "sample_adapt" and nsw > 1:
+                    alt = "sample"           # the adaptive loop changes the scale after every sweep: first sweep only
+                entries.append(alt)
+            for entry in entries:
+                ctx.case(("sweep", iface, entry, c["d"], c["tgt"], c["sc"], tuple(c["x0"]),
+                          hashlib.sha1(_cfgkey(b["prog"]).encode()).hexdigest()[:12]), facet="sweep")
+                W.run_sweeps(ctx, b, root, iface, entry, salt=n, stats=stats)
+                ctx.traces += 1
+                nrun += 1
+    # vacuity: every order of accepted / rejected / refused components was really driven in both interfaces and both
+    # dimensions; a refused component FOLLOWED by a later component on every coupled-support target; every entry point
+    for iface in ("exp", "leg"):
+        for d in sorted({b["cfg"]["d"] for b in behs}):
+            have = {k.split("/")[2] for k in stats["patterns"] if k.startswith("%s/d=%d/" % (iface, d))}
+            if len(have) != 3 ** d:
+                raise MachineryError("sweep facet vacuous: %d of %d outcome patterns (accept / reject / refused per component) "
+                                     "driven for %s, d=%d" % (len(have), 3 ** d, iface, d))
+            for tgt in sorted({b["cfg"]["tgt"] for b in behs}):
+                if not stats["refused_then_later"].get("%s/d=%d/tgt=%s" % (iface, d, tgt)):
+                    raise MachineryError("sweep facet vacuous: no sweep with a refused component followed by a later component "
+                                         "(%s, d=%d, %s)" % (iface, d, tgt))
+        for entry in W.ENTRIES[iface]:
+            if not stats["entries"].get("%s/%s" % (iface, entry)):
+                raise MachineryError("sweep facet vacuous: entry point %s/%s was not driven" % (iface, entry))
+    if {b["cfg"]["d"] for b in behs} != {2, 3}:
+        raise MachineryError("sweep facet: the specification must enumerate dimensions 2 and 3")
+    ctx.observe("sweeps", {"behaviours_emitted": len(behs), "behaviours_replayed": len(chosen), "runs": nrun,
+                           "real_sweeps_compared": stats["sweeps"], "entry_points": stats["entries"],
+                           "outcome_patterns_driven": len(stats["patterns"]),
+                           "sweeps_with_a_refused_component_followed_by_a_later_one": stats["refused_then_later"],
+                           "wall_s": round(time.time() - t0, 1)})
+    # neither required nor forbidden: observations
+    ctx.observe("sweep_observations", {"sweeps_with_evaluations_besides_the_component_proposals": stats["extra_evaluations"],
+                                       "sweeps_in_which_no_uniform_was_drawn_for_a_refused_proposal": stats["uniform_not_drawn_for_refused"],
+                                       "uniforms_requested_after_an_unmodelled_evaluation": stats["uniform_after_unmodelled_evaluation"]})
+    # binding self-test: the expectation of a later component replaced by the prediction of the deviation RefusedStaysInBuffer
+    # (the refused value kept) - the real kernel does not evaluate there and that must be reported
+    tested = 0
+    for iface in ("exp", "leg"):
+        for d in (2, 3):
+            def fit(b):
+                sw = W.split_sweeps(b["prog"])[0]
+                return b["cfg"]["d"] == d and sw[0]["cls"] == "Any"
+            b = next((q for q in chosen if fit(q)), None)
+            if b is None:
+                raise MachineryError("binding self-test of the sweep facet impossible (d=%d)" % d)
+
+            def tamper(sweeps):
+                sweeps[0][1]["at"] = list(sweeps[0][1]["at"])
+                sweeps[0][1]["at"][0] = sweeps[0][0]["v"]
+                return sweeps
+            col = _Collector()
+            W.run_sweeps(col, b, roots[_cfgkey(b["cfg"])], iface, W.ENTRIES[iface][0], salt=0, tamper=tamper)
+            if not any("/eval_point/j=2" in h for h in col.hits) and not ctx.violations:
+                raise MachineryError("binding self-test: an expected evaluation point the kernel does not visit was not reported (%s, d=%d: %r)" % (
+                    iface, d, col.hits))
+            tested += 1
+    ctx.observe("binding_selftest_sweep", "%d sweeps replayed against an expectation corrupted as the deviation RefusedStaysInBuffer "
+                "predicts: eval_point mismatch reported each time" % tested)
+    return chosen
+
+
+# ----------------------------------------------------------------------------------------------------------------
+# spec -> code : the public chain loops (sample / warmup of the stateful, sample of the stateless interface)
+# ----------------------------------------------------------------------------------------------------------------
+def chain_facet(ctx, roots, behs):
+    """the behaviours that consist of transitions only, executed through the loops that call step() / single_update()
+    (the replay facet calls these one at a time and threads the state of the stateless interface itself)"""
+    from cuqiverif import mhchain_real as C
+    from cuqiverif.core import MachineryError
+    pure = [b for b in behs if C.pure_transitions(b)]
+    t0 = time.time()
+    done, ntrans = {}, 0
+    for n, b in enumerate(pure):
+        if (n + ctx.seed) % 2:
+            continue                                   # every other behaviour (rotating with the seed)
+        c = b["cfg"]
+        root = roots[_cfgkey(c)]
+        entry = "sample" if (c["iface"] == "leg" or n % 4 < 2) else "warmup"
+        ctx.case(("chain", c["k"], c["iface"], c["d"], c["tgt"], c["sc"], c["m"], entry,
+                  hashlib.sha1(_cfgkey(b["prog"]).encode()).hexdigest()[:12]), nontrivial=_nontrivial(b), facet="chain")
+        k = C.run_chain(ctx, b, root["rows"], root["sv"], root, entry, salt=n)
+        ntrans += k
+        ctx.traces += 1
+        key = "%s/%s/%s" % (c["k"], c["iface"], entry)
+        done[key] = max(done.get(key, 0), len(C.pure_transitions(b)))
+    for kern in ("RW", "CW", "PCN", "MALA"):
+        for iface, entries in (("exp", ("sample", "warmup")), ("leg", ("sample",))):
+            for entry in entries:
+                need = 1 if kern == "CW" else 2
+                if done.get("%s/%s/%s" % (kern, iface, entry), 0) < need and not ctx.violations:
+                    raise MachineryError("chain facet vacuous: no chain of %d transitions of %s/%s through %s() (%r)" % (need, kern, iface, entry, done))
+    ctx.observe("chains", {"behaviours_of_transitions_only": len(pure), "transitions_through_the_public_loops": ntrans,
+                           "longest_chain_per_kernel_interface_entry": done, "wall_s": round(time.time() - t0, 1)})
+
+
 def probes(ctx):
     """things neither required nor forbidden by the property: recorded as observations"""
     import cuqi
@@ -694,7 +838,7 @@ def run(ctx):
     os.makedirs(workdir, exist_ok=True)
     # 1. model checking, behaviour emission, named deviations - all TLC runs concurrently
     jobs = {}
-    with concurrent.futures.ThreadPoolExecutor(max_workers=10) as pool:
+    with concurrent.futures.ThreadPoolExecutor(max_workers=12) as pool:
         jobs["main"] = pool.submit(_tlc_retry, ctx, "MHKernel", cfg="MHKernel.%s.cfg" % tier, workers=8, timeout=3000)
         jobs["deep"] = pool.submit(_tlc_retry, ctx, "MHKernel", cfg="MHKernel.deep.%s.cfg" % tier, workers=8, timeout=3000)
         jobs["m0"] = pool.submit(_tlc_retry, ctx, "MHKernel", cfg="MHKernel.rawprior_m0.cfg", workers=2, timeout=2400)
@@ -702,6 +846,9 @@ def run(ctx):
         jobs["src"] = pool.submit(_tlc_retry, ctx, "MHKernel", cfg="MHKernel.src.%s.cfg" % tier, workers=4, timeout=3000)
         for cfg, inv in DEVIATIONS:
             jobs[cfg] = pool.submit(_tlc_retry, ctx, "MHKernel", cfg=cfg, workers=2, expect_violation=True, timeout=2400)
+        jobs["sweep"] = pool.submit(_tlc_retry, ctx, "CWSweep", cfg="CWSweep.%s.cfg" % tier, workers=4, timeout=3000)
+        for cfg, inv in SWEEP_DEVIATIONS:
+            jobs[cfg] = pool.submit(_tlc_retry, ctx, "CWSweep", cfg=cfg, workers=1, expect_violation=True, timeout=2400)
         if tier == "thorough":
             jobs["sim"] = pool.submit(_tlc_retry, ctx, "MHKernel", cfg="MHKernel.sim.thorough.cfg", workers=4, mode="simulate",
                                       simulate="num=500", depth=40, seed=1000 + ctx.seed, timeout=3000)
@@ -728,7 +875,8 @@ def run(ctx):
         ctx.model_must_hold(res["m0"], "MHKernel(raw prior draw, m=0)")
         ctx.model_must_hold(res["abort"], "MHKernel(abort)")
         ctx.model_must_hold(res["src"], "MHKernel(sources)")
-        for cfg, inv in DEVIATIONS:
+        ctx.model_must_hold(res["sweep"], "CWSweep")
+        for cfg, inv in DEVIATIONS + SWEEP_DEVIATIONS:
             r = res[cfg]
             if r.ok or r.violated != inv:
                 raise MachineryError("deviation %s did not violate %s (got %r): invariant is vacuous" % (cfg, inv, r.violated))
@@ -755,12 +903,13 @@ def run(ctx):
             raise MachineryError("vacuous model: no aborted sweep with an accepted component in both modes (%r)" % sorted(amodes))
         acts["x (abort cfg)"] = aacts["x"]
         ctx.observe("emitted_actions", acts)
-        ctx.observe("named_deviations", {cfg: inv for cfg, inv in DEVIATIONS})
+        ctx.observe("named_deviations", {cfg: inv for cfg, inv in DEVIATIONS + SWEEP_DEVIATIONS})
         if not behs or not roots:
             raise MachineryError("no behaviours emitted by MHKernel")
         # 2. spec -> code
         limit = None if tier == "quick" else 150000
         chosen = replay_facet(ctx, roots, behs, limit)
+        chain_facet(ctx, roots, chosen)
         alimit = None if tier == "quick" else 40000
         achosen = abort_facet(ctx, roots, abehs, alimit)
         slimit = None if tier == "quick" else 8000
@@ -768,6 +917,14 @@ def run(ctx):
         if slimit is not None and len(sbehs) > slimit:
             sbehs = select_source(sbehs, random.Random(ctx.seed + 5), slimit)
         schosen = source_facet(ctx, roots, sbehs)
+        wroots = {_cfgkey(c["cfg"]): c for c in res["sweep"].cases if c["kind"] == "root"}
+        wbehs = [c for c in res["sweep"].cases if c["kind"] == "sweeps"]
+        if not wbehs or not wroots:
+            raise MachineryError("no behaviours emitted by CWSweep")
+        wlimit = None if tier == "quick" else 15000
+        wchosen = sweep_facet(ctx, wroots, wbehs, wlimit)
+        wb = next((b for b in wchosen if b["cfg"]["d"] == 3 and b["prog"][0]["cls"] == "Any" and b["prog"][1]["acc"] == 1), wchosen[0])
+        ctx.sample({"sweep_behaviour": {"cfg": wb["cfg"], "prog": wb["prog"]}})
         sb = next((b for b in schosen if b["cfg"]["src"] == "rng"), schosen[0])
         ctx.sample({"source_behaviour": {"cfg": sb["cfg"], "prog": sb["prog"][:2]}})
         ab = next((b for b in achosen if b["cfg"]["k"] == "CW" and _abort_entry(b)["mode"] == "rollback"), achosen[0])
@@ -796,17 +953,23 @@ def run(ctx):
                 "one aborted transition of MHKernel.abort.<tier>.cfg (quick: all; thorough: stratum cover + seeded sample of %d; "
                 "target raising at the evaluation the spec names); plus the behaviours of MHKernel.src.<tier>.cfg (randomness "
                 "sources other than the global stream, dimension 2; every realisation of the source; quick: all; thorough: stratum "
-                "cover + seeded sample of %d); plus recorded traces (non-trivial = contains a judged "
-                "transition)" % (limit or len(behs), alimit or len(abehs), slimit or len(sbehs)))
+                "cover + seeded sample of %d); plus the sweeps of CWSweep.<tier>.cfg (component-wise kernel, dimensions 2 and 3, "
+                "coupled-support targets, every initial point of the support x proposed moves x decision classes; both interfaces, "
+                "primary entry point on every behaviour + the public loops on a third; quick: all; thorough: stratum cover + seeded "
+                "sample of %d); plus recorded traces (non-trivial = contains a judged "
+                "transition)" % (limit or len(behs), alimit or len(abehs), slimit or len(sbehs), wlimit or len(wbehs)))
     # every behaviour of the bounded emission instances was replayed
     ctx.exhaustive = (limit is None or len(behs) <= limit) and (alimit is None or len(abehs) <= alimit) and (
-        slimit is None or nsrc <= slimit)
+        slimit is None or nsrc <= slimit) and (wlimit is None or len(wbehs) <= wlimit)
     ctx.assumptions += ["acceptance thresholds are placed 1e-6 (relative) below / above exp(r): a ratio error below 1e-6 is not detected",
                         "table targets on finite lattices; off-lattice evaluations use a smooth finite fallback",
                         "trace facets compare caches with a fresh evaluation of the sampler's own target (rtol 1e-10)",
                         "randomness sources: the generator given to the code serves standard-normal / uniform requests (randn, "
                         "standard_normal, normal, rand, random, uniform) in the order of the noise components; other kinds of "
                         "draws are a machinery error",
+                        "component-wise sweeps (CWSweep): the kernel evaluates a component proposal before it draws the uniform of "
+                        "its decision (the uniform served is the one of the proposal evaluated last; a uniform requested without an "
+                        "evaluation before it is a machinery error); evaluations besides the component proposals are allowed",
                         "aborted transitions: the failure is an exception raised by the target's log-density / drift / forward map "
                         "at the evaluation the spec names, once; failures of other calls (proposal, random stream) are not injected"]
 
@@ -818,6 +981,14 @@ def replay(ctx, case):
     kind = case.get("kind")
     if kind == "beh":
         R.run_behaviour(ctx, case, case["rows"], case["sv0"], case["root"], real=case.get("real", "user"), salt=case.get("salt", 0))
+        return
+    if kind == "chain":
+        from cuqiverif import mhchain_real as C
+        C.run_chain(ctx, case, case["rows"], case["sv0"], case["root"], case["entry"], salt=case.get("salt", 0))
+        return
+    if kind == "sweeps":
+        from cuqiverif import cwsweep_real as W
+        W.run_sweeps(ctx, case, case["root"], case["iface"], case["entry"], salt=case.get("salt", 0))
         return
     if kind == "abort_sample":
         R.run_abort_sample(ctx, case, case["rows"], case["sv0"], case["root"], real=case.get("real", "user"), salt=case.get("salt", 0))
